@@ -168,9 +168,25 @@ def _modes(tier, kind):
     if kind == "tz":
         return m + ["subset"] + [f"random{j}" for j in range(N_RANDOM[tier])]
     n_enum = N_ENUM[tier]
-    if tier == "quick" and kind in ("fuses", "xmcd", "fcb"):
-        n_enum = 1  # the slow chains; random draws pick a named value for 70 % of the enumerated fields anyway
+    if kind in ("fuses", "xmcd", "fcb"):
+        # the slow chains (schema compiled on every load, XMCD deep-copies its registers on every access);
+        # random draws pick a named value for 70 % of the enumerated fields anyway
+        n_enum = 0 if tier == "quick" else 2
     return m + [f"random{j}" for j in range(N_RANDOM[tier])] + [f"enum{j}" for j in range(n_enum)]
+
+
+def extra_coverage(events, counters):
+    """Measured in the parent from the worker logs: judged (area kind, specification) pairs per kind."""
+    per_kind: dict[str, set] = {}
+    for ev in events:
+        if ev.get("t") == "ok" and "sig" in ev:
+            try:
+                sig = json.loads(ev["sig"])
+            except ValueError:
+                continue
+            if isinstance(sig, list) and len(sig) >= 4:
+                per_kind.setdefault(str(sig[0]), set()).add((str(sig[1]), str(sig[2]), str(sig[3])))
+    return {"judged_specifications_per_kind": {k: len(v) for k, v in sorted(per_kind.items())}}
 
 
 # ------------------------------------------------------------------------------------------
@@ -603,7 +619,7 @@ def _computed_law(ctx, ad, inst, obj, data: bytes):
         want = crcs.crc32_mpeg2(data).to_bytes(4, "big")
         got = obj.crc
         if got != want:
-            _viol(ctx, ad, inst, "xmcd-crc-wrong", {"got": got, "want": want})
+            _viol(ctx, ad, inst, "crc-wrong", {"got": got, "want": want})
         hdr = int.from_bytes(data[0:4], "little")
         from spsdk.image.xmcd.xmcd import MEMORY_INTERFACE_TO_VALUE
 
@@ -612,10 +628,10 @@ def _computed_law(ctx, ad, inst, obj, data: bytes):
         got_hdr = {"tag": hdr >> 28, "version": (hdr >> 24) & 0xF, "interface": (hdr >> 20) & 0xF, "blocktype": (hdr >> 12) & 0xF,
                    "size": hdr & 0xFFF}
         if got_hdr != want_hdr:
-            _viol(ctx, ad, inst, "xmcd-header-wrong", {"got": got_hdr, "want": want_hdr})
+            _viol(ctx, ad, inst, "header-wrong", {"got": got_hdr, "want": want_hdr})
     elif kind == "bca":
         if data[0:4] != b"kcfg":
-            _viol(ctx, ad, inst, "bca-tag-wrong", {"got": data[0:4]})
+            _viol(ctx, ad, inst, "tag-wrong", {"got": data[0:4]})
     elif kind == "fcb":
         if data[0:4] != b"FCFB":
             inst["_tag_in_bytes_wrong"] = True
